@@ -199,8 +199,39 @@ def F15():
     return out[0] > 6.0, 'PF mean vs exact posterior: %.1f sigma (likelihood at propagated particle, documented), %.1f sigma (at prior particle)' % tuple(out)
 
 
+def F16():
+    torch.manual_seed(0)
+    B, ns, nc, T = 2, 1, 1, 3
+    A = torch.randn(B, ns, ns); Bm = torch.randn(B, ns, nc); C = torch.eye(ns).repeat(B, 1, 1); D = torch.zeros(B, ns, nc)
+    Q = torch.eye(ns + nc).repeat(B, T, 1, 1); p = torch.randn(B, T, ns + nc); x0 = torch.randn(B, ns)
+    try:
+        x, u, c = pp.module.LQR(pp.module.LTI(A, Bm, C, D), Q, p, T)(x0)
+        err = max((x[:, t + 1] - (pp.bmv(A, x[:, t]) + pp.bmv(Bm, u[:, t]))).abs().max().item() for t in range(T))
+        return err > 1e-9, 'LQR on a batched LTI with scalar state: feasibility error %.1e' % err
+    except Exception as e:
+        return True, 'LQR on a batched LTI with scalar state raises %s' % type(e).__name__
+
+
+def F17():
+    class M(torch.nn.Module):
+        def __init__(s):
+            super().__init__()
+            s.b = torch.nn.Parameter(torch.randn(3), requires_grad=False)
+            s.a = torch.nn.Parameter(torch.randn(3))
+            s.X = pp.Parameter(pp.randn_SO3(2))
+        def forward(s, x):
+            return s.X.Act(x) + s.a + s.b
+    torch.manual_seed(0)
+    m = M(); b0 = m.b.clone()
+    try:
+        pp.optim.GN(m).step(torch.randn(2, 3))
+        return bool((m.b != b0).any()), 'GN step with a frozen parameter runs; frozen parameter changed: %s' % bool((m.b != b0).any())
+    except Exception as e:
+        return True, 'GN step on a model with a frozen parameter raises %s' % type(e).__name__
+
+
 if __name__ == '__main__':
-    names = sys.argv[1:] or ['F%d' % i for i in range(1, 16)]
+    names = sys.argv[1:] or ['F%d' % i for i in range(1, 18)]
     for n in names:
         try:
             d, msg = globals()[n]()
